@@ -14,6 +14,7 @@
 // Histories are built from relations that caches and memoised state get wrong: exact repeats, one argument changed
 // (other second word, other ar/arp settings - ar only, arp only, none), opcodes that share low/high bits
 // (op ^ 0x8000, op + 128k, op ^ 1<<b), the all-ones / all-zeros words first, other entry point for the same word.
+#include <atomic>
 #include <sys/wait.h>
 #include <thread>
 #include <unistd.h>
@@ -171,6 +172,89 @@ int main(int argc, char** argv) {
         sens.push_back(0);
     }
     RecTable table; // rows only; never calls Decode<>()
+
+    if (ctx.mode == "concurrent") {
+        // ---- the same functions called from several threads at once, each thread with its OWN ar/arp settings: every
+        // result must equal what the same call returns when nothing else runs (computed beforehand, one thread at a time)
+        for (u64 c = 0; c < ctx.cases; ++c) {
+            if (!ctx.selected(c))
+                continue;
+            Rng g = ctx.case_rng(c);
+            const unsigned nthreads = 2 + (unsigned)g.below(3);
+            const unsigned ncalls = 48, iters = (unsigned)ctx.opt_u64("iters", 300);
+            struct Work {
+                Env env;
+                std::vector<Call> calls;
+                std::vector<std::string> expect;
+                std::string bad_call, bad_got, bad_want;
+                u64 done = 0;
+            };
+            std::vector<Work> W(nthreads);
+            for (auto& w : W) {
+                Dis::ArArpSettings st;
+                for (auto& x : st.ar)
+                    x = (u16)g.bits(16);
+                for (auto& x : st.arp)
+                    x = (u16)g.bits(16);
+                w.env.pool.push_back(st);
+                for (unsigned k = 0; k < ncalls; ++k) {
+                    Call cl;
+                    cl.fn = g.chance(1, 2) ? F_TOKENS : F_DO;
+                    if (g.chance(1, 6))
+                        cl.fn = g.chance(1, 2) ? F_CDO : F_DECODE;
+                    cl.op = g.chance(5, 6) ? g.pick(sens) : (u16)g.bits(16);
+                    cl.exp = g.edge16();
+                    cl.cfg = g.chance(5, 6) ? 0 : -1;
+                    cl.rel = "concurrent";
+                    w.calls.push_back(cl);
+                }
+            }
+            for (auto& w : W) { // serial expectation, in a thread of its own
+                std::thread th([&] {
+                    for (auto& cl : w.calls)
+                        w.expect.push_back(run_call(w.env, cl));
+                });
+                th.join();
+            }
+            std::atomic<unsigned> ready{0};
+            std::vector<std::thread> ths;
+            for (auto& w : W)
+                ths.emplace_back([&] {
+                    ready.fetch_add(1);
+                    while (ready.load() < nthreads)
+                        std::this_thread::yield();
+                    for (unsigned it = 0; it < iters && w.bad_call.empty(); ++it)
+                        for (size_t k = 0; k < w.calls.size(); ++k) {
+                            std::string r = run_call(w.env, w.calls[k]);
+                            ++w.done;
+                            if (r != w.expect[k]) {
+                                w.bad_call = call_str(w.calls[k]);
+                                w.bad_got = r;
+                                w.bad_want = w.expect[k];
+                                break;
+                            }
+                        }
+                });
+            for (auto& th : ths)
+                th.join();
+            ctx.count("cases");
+            for (auto& w : W) {
+                ctx.count("concurrent_calls_compared", w.done);
+                if (!w.bad_call.empty())
+                    ctx.violation(fmt("concurrent:%s", w.bad_call.substr(0, w.bad_call.find('(')).c_str()),
+                                  fmt("%s returned '%s' while %u other threads were disassembling with other ar/arp settings; alone it returns '%s'",
+                                      w.bad_call.c_str(), w.bad_got.substr(0, 100).c_str(), nthreads - 1, w.bad_want.substr(0, 100).c_str()),
+                                  c);
+            }
+            ctx.seen("nt", fmt("concurrent:threads=%u", nthreads));
+            for (auto& w : W)
+                for (auto& cl : w.calls)
+                    ctx.seen("nt", fmt("concurrent:%s:cfg=%d", fn_name[cl.fn], cl.cfg < 0 ? 0 : 1));
+            if (c < 2)
+                ctx.sample(JObj().str("mode", "concurrent").num("threads", nthreads).num("calls_per_thread", (s64)ncalls * iters).done());
+        }
+        return ctx.finish();
+    }
 
     // pass 0: every 8th case, forked from a parent in which none of the functions has run yet (the first call of the
     // history is the first call of its process); pass 1: the rest, forked after the assembler has been built (which
